@@ -6,14 +6,14 @@ from .common import setup, run_kernels
 
 def run(chk):
     prog, base = setup(chk)
-    chk.bounds = ["Bytes/Equal/IsNegative: all limb vectors <= 2^51+2^38 (every reachable representation, C09)", "SetBytes: all 2^256 strings; SetWideBytes: all 2^512 strings; every other length (symbolic)",
+    chk.bounds = ["Bytes/Equal/IsNegative (through reduce): all limb vectors with limbs < 2^52 (the documented bound; a superset of the reachable representations of C09)", "SetBytes: all 2^256 strings; SetWideBytes: all 2^512 strings; every other length (symbolic)",
                   "Select/Swap: all 64-bit limb contents, cond in {0,1}"]
     chk.outside = ["cond values other than 0/1 (documented precondition)"]
     chk.assumptions = ["reduce contract (limbs<2^51, value<p, congruent) discharged in Int-LF and used as summary in the BV serialisation check",
                        "Bytes summarised as 'the canonical encoding' inside Equal/IsNegative (contract = reduce + bytes obligations of this run)"]
     ET = prog.T(K.F + "Element")
     items = [
-        ("reduce", lambda: K.k_reduce(base, chk)),
+        ("reduce", lambda: K.k_reduce(base, chk, bound=2**52 - 1)),
         ("carryPropagate", lambda: K.k_carry(base, chk, K.F + "carryPropagate")),
         ("Bytes", lambda: K.k_bytes(base, chk)),
         ("SetBytes", lambda: K.k_setbytes(base, chk)),
